@@ -4,9 +4,11 @@ import (
 	"bytes"
 	"fmt"
 	"reflect"
+	"runtime"
 	"strings"
 	"sync"
 	"time"
+	"verif/internal/fakesrv"
 
 	"github.com/hugelgupf/p9/p9"
 
@@ -21,7 +23,7 @@ import (
 func init() {
 	ev.Register(&ev.Spec{
 		ID: "C18", Level: "exploration",
-		Rule:    "histories of same-type messages with shrinking and growing variable parts (name lists 200 -> 16 -> 2 -> 0 -> 5, strings 65535 -> 300 -> 1 -> 0 -> 40 bytes, payloads msize-bound -> 4096 -> 7 -> 0 -> 100) for Twalk, Twalkgetattr, Twrite, Tattach, Tsymlink, Tusymlink, Trenameat, Txattrwalk, Txattrcreate+Twrite, Tread, Treaddir, interleaved over 2-4 connections to one server (the message cache and buffer pools are process-wide / per connection), with rejected frames in between (objects abandoned mid-decode) and frames of 14 types that end before their fields do (nothing may be completed from bytes outside the frame: no backend call, no binding lost or made), reads of n then m < n bytes with a backend that fills only half of what it reports, repeated Tversion changing msize between reads; every backend-observed argument and every reply byte is compared with the reference decode/encode of that frame alone. Both tiers: up to 64 Treads in flight on one connection over files whose content is a function of (file, offset), most reads running into end of file ((n, io.EOF) from the backend), every reply compared byte for byte with what its own request must yield. Thorough adds concurrent connections under the race detector. Non-trivial: the previous message of that type on any connection had a longer variable part; distinct by (type, previous length class, length class, connection switch).",
+		Rule:    "histories of same-type messages with shrinking and growing variable parts (name lists 200 -> 16 -> 2 -> 0 -> 5, strings 65535 -> 300 -> 1 -> 0 -> 40 bytes, payloads msize-bound -> 4096 -> 7 -> 0 -> 100) for Twalk, Twalkgetattr, Twrite, Tattach, Tsymlink, Tusymlink, Trenameat, Txattrwalk, Txattrcreate+Twrite, Tread, Treaddir, interleaved over 2-4 connections to one server (the message cache and buffer pools are process-wide / per connection), with rejected frames in between (objects abandoned mid-decode) and frames of 14 types that end before their fields do (nothing may be completed from bytes outside the frame: no backend call, no binding lost or made), reads of n then m < n bytes with a backend that fills only half of what it reports, repeated Tversion changing msize between reads; every backend-observed argument and every reply byte is compared with the reference decode/encode of that frame alone. Both tiers: up to 64 Treads in flight on one connection over files whose content is a function of (file, offset), most reads running into end of file ((n, io.EOF) from the backend), every reply compared byte for byte with what its own request must yield. Client side: 6 goroutines on one Client, every call answered Rlerror with an errno that is a function of its fid - each caller must get its own. Thorough adds concurrent connections under the race detector. Non-trivial: the previous message of that type on any connection had a longer variable part; distinct by (type, previous length class, length class, connection switch).",
 		Assume:  []string{"recfs deep-copies arguments at call time", "a backend may leave part of the read buffer untouched: those bytes must be zero, not stale"},
 		Shards:  shards(8, 16),
 		Race:    raceIn("thorough"),
@@ -546,6 +548,7 @@ func runC18(c *ev.Ctx) {
 		w.close()
 	}
 	c18Pipelined(c)
+	c18ClientErrors(c)
 	if c.Thorough() {
 		c18Concurrent(c)
 	}
@@ -732,5 +735,54 @@ func c18Pipelined(c *ev.Ctx) {
 		}
 		c.Case(fmt.Sprintf("pipelined:%d:%d:eof=%v", inflight, msize, eofs > 0), eofs > 0 && inflight >= 2)
 		s.P.Close()
+	}
+}
+
+// c18ClientErrors: the client side of "a decoded message is a function of its
+// own frame alone". Several goroutines share one Client; each call is answered
+// with Rlerror carrying an errno that is a function of ITS fid. The object an
+// error reply is decoded into must not be shared with the next error reply.
+func c18ClientErrors(c *ev.Ctx) {
+	rounds := c.Sz(8, 200)
+	defer runtime.GOMAXPROCS(runtime.GOMAXPROCS(8))
+	for round := 0; round < rounds; round++ {
+		if !c.Mine(round) {
+			continue
+		}
+		c.Begin(fmt.Sprintf("C18 client errors round %d", round))
+		const G = 6
+		cc := c10Setup(c, G, fakesrv.Auto(0, 7))
+		if cc == nil {
+			continue
+		}
+		var wg sync.WaitGroup
+		bad := make([]string, G)
+		for g := 0; g < G; g++ {
+			wg.Add(1)
+			go func(g int) {
+				defer wg.Done()
+				for i := 0; i < 400 && bad[g] == ""; i++ {
+					if s := cc.do(g, c10call{kind: 'E'}); s != "" && !strings.HasPrefix(s, "error:") {
+						bad[g] = s
+					}
+				}
+			}(g)
+		}
+		done := make(chan struct{})
+		go func() { wg.Wait(); close(done) }()
+		if o, d := quiesce.Await(done, 2*wd); o != quiesce.CondMet {
+			hang(c, o, d, "C18:cli:calls-hang", nil)
+			cc.fs.Shutdown()
+			continue
+		}
+		for g, s := range bad {
+			if s != "" {
+				c.Violation("C18:cli:error-reply-carries-another-reply's-errno", map[string]any{"caller": g, "what": s})
+				break
+			}
+		}
+		c.Case("cli-errors", true)
+		c.Count("client_error_replies_checked", G*400)
+		cc.fs.Shutdown()
 	}
 }
